@@ -14,6 +14,10 @@ Streams (line → answer, identical format on the Lean side, see lean/CsVerif/Dr
   repr   `repr xBS`            repr(bytes) incl. the quote choice
   repl   `repl xOLD xNEW xS`   str.replace
   pattern `pattern`            generated pattern text / flags vs Lark's loaded terminal
+  g-rt g-tok g-emb g-embt g-dec g-deccp g-vtss   every case of these streams once more, run through the definitions TRANSLATED
+                               from the source of value_to_string / string_token_to_bytes / StringIterator (Gen/PyC2Prof.lean)
+  g-arg  `garg vts|stb VALUE`  the translated functions on arguments of every kind (notation of tools/harness/pyuval_t12.py)
+  pyu    `pyu OP OPERANDS`     the run-time operations added for c2profile.py (Model/PyU_T12.lean) vs CPython
 """
 from __future__ import annotations
 
@@ -28,10 +32,14 @@ from lark import Token
 from dissect.cobaltstrike import c2profile as cp
 
 from . import common as C
+from . import pyuval_t12
 
 ID = "C12"
 DRIVER = "drv_c12"
 GEN = ["strlit"]
+GEN += ["c16_unicode", "py_c2prof"]
+EXTRA_PROP_FILES = ["Props/C12Gen.lean"]
+G_STREAMS = ("rt", "tok", "emb", "embt", "dec", "deccp", "vtss")
 STREAMS = {
     "rt": {"relevant": True, "desc": "value_to_string(bytes) text; string_token_to_bytes(Token(STRING, text)); STRING regex on the text"},
     "tok": {"relevant": True, "desc": "STRING regex at the start of value_to_string(bs) + arbitrary following text"},
@@ -46,6 +54,10 @@ STREAMS = {
     "repr": {"relevant": False, "desc": "repr(bytes)"},
     "repl": {"relevant": False, "desc": "str.replace"},
     "pattern": {"relevant": False, "desc": "generated STRING pattern text vs the terminal Lark loaded"},
+    **{"g-" + s_: {"relevant": False, "desc": f"value_to_string / string_token_to_bytes TRANSLATED from their source (Gen/PyC2Prof.lean) "
+                                              f"vs the functions, on every case of {s_}"} for s_ in G_STREAMS},
+    "g-arg": {"relevant": False, "desc": "the translated functions vs the real ones on arguments of every kind (None, ints, lists, Tokens of other types, …)"},
+    "pyu": {"relevant": False, "desc": "run-time operations of Model/PyU_T12.lean (repr, ord, chr, bytes, int(x, base), replace, join, setattr) vs CPython"},
 }
 TRUSTED = [
     "tools/harness/c12.py generators/adapters/oracle; tools/gen/strlit.py; line protocol parsing in lean/CsVerif/Driver/C12.lean",
@@ -53,6 +65,9 @@ TRUSTED = [
     "modelled (Model/C12.lean: reprBytes, strReplace, pyIntHex, pyBytes, scanString/rxMatch), not verified; each has its own exhaustive stream",
     "Lark's LALR parser / contextual lexer is not modelled: the embedded-literal streams compare the library's parse with "
     "'lex one STRING with scanString at the literal position, then decode'",
+    "tools/py2leanu.py + lean/CsVerif/Model/PyU.lean, PyU_T12.lean (untyped translation of value_to_string, string_token_to_bytes, "
+    "StringIterator: Props/C12Gen.lean proves the translated definitions equal to the hand-written model; the g-* streams run them "
+    "against the real functions, the pyu stream runs the added run-time operations against CPython)",
 ]
 ASSUMPTIONS = [
     "profile text is latin-1 (value_to_string output is printable ASCII); token text with code points >= 256 is only covered by the deccp stream",
@@ -162,7 +177,38 @@ DEC_ALPHA = [ord(c) for c in '\\xun"4g- ']
 INT_SET = sorted(set(b"0123456789abcdefABCDEFgGxX_+- \t\n\x0b\x0c\r\x00\x1c\x1d\x1e\x1f\x85\xa0\xb2\xb9\xff\x7f\x80\x84\x86\x9f\xa1"))
 
 
+ARG_FIXED = [None, True, 0, 5, -1, b"", b"a'\"\\", "", "a'\"\\'", "\u0100\xe9", [], [1], (), {}, Token("STRING", '"a\\x41"'), Token("NAME", "x"),
+             Token("STRING", ""), Token("STRING", '"'), Token("STRING", b'"ab"'), Token("STRING", None), Token("STRING", 5),
+             Token("STRING", ["a", "b", "c"]), Token("STRING", ("\\", "n", "x", "y")), Token(None, '"a"'), Token(5, '"a"'),
+             Token("STRING", '"\u0141\\\u0178\u0134\u0131"'), Token(b"STRING", '"a"')]
+
+
 def gen(tier, rng, shard, nshards):
+    """every case that calls value_to_string / string_token_to_bytes is also run through the definitions translated from their source"""
+    for stream, line in gen0(tier, rng, shard, nshards):
+        yield stream, line
+        if stream in G_STREAMS:
+            yield "g-" + stream, "g" + line
+    for i, a in enumerate(ARG_FIXED):
+        if i % nshards == shard:
+            for f in ("vts", "stb"):
+                if f == "stb" or not isinstance(a, (list, tuple, dict, Token)):      # `format(list, "")` is not modelled (PyU.fmt)
+                    yield "g-arg", f"garg {f} {pyuval_t12.pshow(a)}"
+    for _ in range((6000 if tier == "thorough" else 600) // nshards):
+        a = pyuval_t12.value(rng)
+        f = rng.choice(("vts", "stb"))
+        if f == "vts" and not (a is None or type(a) in (bool, int, str, bytes)):
+            continue
+        if f == "vts" and isinstance(a, str) and any(ord(c) >= 128 for c in a) and rng.random() < 0.5:
+            a = a.encode("utf-8")
+        yield "g-arg", f"garg {f} {pyuval_t12.pshow(a)}"
+    for _ in range((120000 if tier == "thorough" else 12000) // nshards):
+        line = pyuval_t12.case(rng)
+        if line is not None:
+            yield "pyu", line
+
+
+def gen0(tier, rng, shard, nshards):
     thorough = tier == "thorough"
     k = 0
 
@@ -345,6 +391,14 @@ def impl(stream, line):
 
 
 def _impl(stream, line):
+    if stream == "pyu":
+        return pyuval_t12.run(line)
+    if stream == "g-arg":
+        w = line.split(" ")
+        f = cp.value_to_string if w[1] == "vts" else cp.string_token_to_bytes
+        return "ok " + pyuval_t12.pshow(f(pyuval_t12.pparse(w[2])))
+    if stream.startswith("g-"):
+        return _impl(stream[2:], line[1:])       # the same real function
     w = line.split(" ")
     if stream == "rt":
         bs = C.unhx(w[1])
@@ -418,6 +472,8 @@ def _one_string_token(text: str) -> bool:
 
 
 def oracle(stream, line, out):
+    if stream.startswith("g-") or stream == "pyu":
+        return None
     w = line.split(" ")
     if stream == "rt":
         bs = C.unhx(w[1])
@@ -501,6 +557,10 @@ _PLAIN = set(range(0x20, 0x7F)) - {0x22, 0x5C}
 
 
 def nontrivial(stream, line, out):
+    if stream in ("pyu", "g-arg"):
+        return not out.startswith("exc ")
+    if stream.startswith("g-"):
+        return nontrivial(stream[2:], line[1:], out)
     if out.startswith("exc ") and stream not in ("dec", "deccp", "inthex"):
         return False
     w = line.split(" ")
@@ -522,6 +582,8 @@ def nontrivial(stream, line, out):
 
 
 def shrink(stream, line):
+    if stream in ("pyu", "g-arg"):
+        return
     w = line.split(" ")
     for cand in C.shrink_tokens(line):
         if stream in ("emb", "embt") and cand.split(" ")[1] != w[1]:
